@@ -200,7 +200,8 @@ def insertBy (key : Nat → Nat) (x : Nat) : List Nat → List Nat
 
 /-- `sort.Slice(o.jumps, target ascending)`.  Go's `sort.Slice` is not stable; the order of jumps
 with equal targets does not influence `patchJumps` (each is patched with the same cumulative shift):
-`Proofs/Peephole.patchJumps_eq_direct` + `patchDirect_perm` prove it for every order. -/
+`Proofs/Peephole.patchJumps_eq_direct` + `patchDirect_ok`: a successful result is the list with
+exactly the listed positions retargeted by the direct formula, whatever their order. -/
 def sortBy (key : Nat → Nat) : List Nat → List Nat
   | [] => []
   | x :: xs => insertBy key x (sortBy key xs)
